@@ -173,6 +173,58 @@ def _grids(tier: str, seed: int):
     return uniq
 
 
+def check_layout(spec):
+    """(a) get_closest on 2-d arrays in every memory layout (C order, Fortran order, transposed and strided views) is the element-wise
+    scalar result; (b) digitize_data on batches whose rows follow a PERIODIC pattern (rows at a regular pitch already on the grid,
+    the rows between them off the grid) snaps every entry - a probe that looks at every k-th row must not speak for the others."""
+    from black_it.utils.base import digitize_data, get_closest
+
+    res = {"evaluations": 0, "nontrivial": 0, "states": 0, "transitions": 0, "traces": 0, "stats": {"layout_calls": 0}, "outcomes": [], "violations": [], "samples": []}
+    g = np.array(spec["grid"], dtype=float)
+    step = float(np.min(np.diff(g))) if len(g) > 1 else 1.0
+    case = {"grid": spec["grid"], "mode": "layout", "rows": spec["rows"], "pitch": spec["pitch"]}
+
+    def viol(key, what):
+        if sum(1 for x in res["violations"] if x["key"] == key) < 1:
+            res["violations"].append({"key": key, "what": what, "case": case})
+
+    n, pitch = spec["rows"], spec["pitch"]
+    idx = np.arange(n)
+    on = g[(idx * 7) % len(g)]
+    off = on + step * (0.25 + 0.5 * ((idx * 3) % 2))            # a quarter / three quarters of a step above an element
+    col = np.where(idx % pitch == 0, on, off)
+    data = np.stack([col, np.roll(col, 1), np.where((idx + 1) % pitch == 0, on, off)], axis=1)
+    want = np.array([[get_closest(g, np.array([v]))[0] for v in row] for row in data])
+    # (b) periodic batches through digitize_data: columns out of phase, and all columns in phase (whole rows on the grid)
+    on2 = g[(idx * 5 + 1) % len(g)]
+    inphase = np.stack([col, np.where(idx % pitch == 0, on2, on2 - step * 0.25), np.where(idx % pitch == 0, on, off)], axis=1)
+    for tag, dat in (("out of phase", data), ("whole rows", inphase)):
+        w = want if dat is data else np.array([[get_closest(g, np.array([v]))[0] for v in row] for row in dat])
+        out = np.asarray(digitize_data(dat.copy(), [g, g, g]))
+        res["stats"]["layout_calls"] += 1
+        res["evaluations"] += dat.size
+        res["nontrivial"] += dat.size
+        if out.shape != dat.shape or not np.array_equal(out, w):
+            bad = int(np.sum(out != w)) if out.shape == dat.shape else -1
+            viol("array-differs-from-scalar:periodic-rows", f"digitize_data on {n} rows with every {pitch}-th row on the grid ({tag}): {bad} of {dat.size} entries differ from the element-wise result")
+    # (a) 2-d input to get_closest in four layouts
+    small = data[: min(n, 24)]
+    for name, arr in (("C", np.ascontiguousarray(small)), ("F", np.asfortranarray(small)), ("transposed", np.ascontiguousarray(small.T).T), ("T", small.T.copy().T if False else small.T),
+                      ("strided", np.repeat(small, 2, axis=0)[::2, ::-1])):
+        exp = np.array([[get_closest(g, np.array([v]))[0] for v in row] for row in np.asarray(arr)])
+        try:
+            got = np.asarray(get_closest(g, arr))
+        except Exception as e:  # noqa: BLE001
+            viol("get-closest-2d-raises:" + name, f"get_closest on a 2-d array in {name} layout raised {type(e).__name__}: {e}")
+            continue
+        res["stats"]["layout_calls"] += 1
+        res["evaluations"] += exp.size
+        if got.shape != exp.shape or not np.array_equal(got, exp):
+            viol("get-closest-2d-misplaced:" + name, f"get_closest on a 2-d array in {name} layout (shape {np.asarray(arr).shape}) is not the element-wise result: e.g. got {got.ravel()[:4].tolist()}, expected {exp.ravel()[:4].tolist()}")
+    res["states"] = res["traces"] = res["evaluations"]
+    return res
+
+
 def run_cell(cell):
     meta = None
     if isinstance(cell, dict):
@@ -180,7 +232,7 @@ def run_cell(cell):
         cell = cell["items"]
     agg = {"evaluations": 0, "nontrivial": 0, "states": 0, "transitions": 0, "traces": 0, "stats": {"grids": 0}, "outcomes": set(), "violations": [], "samples": []}
     for item in cell:
-        r = check_columns(item) if isinstance(item, dict) else check_grid(item)
+        r = check_layout(item) if isinstance(item, dict) and item.get("kind") == "layout" else check_columns(item) if isinstance(item, dict) else check_grid(item)
         for k in ("evaluations", "nontrivial", "states", "transitions", "traces"):
             agg[k] += r[k]
         agg["stats"]["grids"] += 1
@@ -202,7 +254,9 @@ def gate_any(case):  # noqa: ARG001
 
 
 def replay_case(case):
-    if case.get("mode") == "columns":
+    if case.get("mode") == "layout":
+        r = check_layout({"grid": case["grid"], "rows": case["rows"], "pitch": case["pitch"]})
+    elif case.get("mode") == "columns":
         r = check_columns({"grids": case["grids"]})
     else:
         r = check_grid(case["grid"])
@@ -229,16 +283,22 @@ def _items(tier, seed):
         col_specs.append({"grids": [ga, [x * (1 + 1e-6) + 1e-7 for x in ga]]})
         col_specs.append({"grids": [[x * 1e-9 for x in ga], [x * 2e-9 for x in ga], [x * 1e-9 + 1e-10 for x in ga]]})
         col_specs.append({"grids": [ga, ga, [x + (ga[1] - ga[0]) * 0.25 for x in ga]]})
-    return grids + col_specs
+    lay = []
+    for gi, g in enumerate([[0.0, 0.1, 0.2, 0.30000000000000004, 0.4, 0.5], [x * 0.03 for x in range(34)], [-3.3 + 0.7 * k for k in range(15)], [1000.0 + 0.25 * k for k in range(5)]]):
+        for rows in ((12, 95, 96, 97, 144, 480, 1000) if quick else (12, 48, 95, 96, 97, 100, 144, 192, 480, 960, 1000, 4800)):
+            for pitch in sorted({1, 2, 3, 5, 10, max(1, rows // 48), max(1, rows // 24), max(1, rows // 96), max(1, rows // 100), max(1, rows // 10)}):
+                if (gi + rows + pitch) % (2 if quick else 1) == 0:
+                    lay.append({"kind": "layout", "grid": g, "rows": rows, "pitch": pitch})
+    return grids + col_specs + lay
 
 
 def main(ctx):
     items = _items(ctx.tier, ctx.seed)
     grids = [x for x in items if not isinstance(x, dict)]
-    col_specs = [x for x in items if isinstance(x, dict)]
+    col_specs = [x for x in items if isinstance(x, dict) and x.get("kind") != "layout"]
     nchunks = 16 if ctx.quick else 64
     cells = [{"items": items[i::nchunks], "cell": i, "nchunks": nchunks, "tier": ctx.tier, "seed": ctx.seed} for i in range(nchunks)]
-    ctx.bounds = {"grids": len(grids), "column_specs": len(col_specs), "max_grid_len": max(len(g) for g in grids), "input_dtypes": ["float64", "float32", "int64"]}
+    ctx.bounds = {"layouts_and_periodic_batches": sum(1 for x in items if isinstance(x, dict) and x.get("kind") == "layout"), "grids": len(grids), "column_specs": len(col_specs), "max_grid_len": max(len(g) for g in grids), "input_dtypes": ["float64", "float32", "int64"]}
     ctx.rule = ("all non-empty subsets of a base set x 4 scales x 2 offsets + uniform grids; per grid every element, mid/quarter point, "
                 "their nextafter neighbours and 8 out-of-range values; non-trivial = value is not itself a grid element")
     ctx.assumptions = ["numpy float64 arithmetic; grids strictly increasing (as SearchSpace builds them)"]
